@@ -389,6 +389,16 @@ func selftest(verbose bool) error {
 	for _, tc := range []struct {
 		fn  string
 		bad bool
+	}{{"RunMaxBad", true}, {"RunMaxFlagOk", false}, {"RunMaxMinOk", false}} {
+		f := u.Func(fx, tc.fn)
+		if f == nil {
+			return fmt.Errorf("fixture %s missing", tc.fn)
+		}
+		expect("constant-seeded-extreme/"+tc.fn, len(constantSeededExtremes(f)) > 0, tc.bad)
+	}
+	for _, tc := range []struct {
+		fn  string
+		bad bool
 	}{{"GoLoopOk", false}, {"GoLoopBad", true}} {
 		f := u.Func(fx, tc.fn)
 		if f == nil {
